@@ -14,25 +14,26 @@ PID = "C15"
 RULE = ("(prog) Field(mesh, nvdim, value, norm, valid) on exact-regime 1-4-d meshes with 1-4 components, then 0-3 steps out of "
         "{norm = spec, update_field_values, valid = spec}: after the constructor and after every step the array, validity and "
         "metadata, Field.norm and Field.orientation are compared with the rational model (the constructor as one model call, every "
-        "step as a model call on the implementation's own pre-state). Cell vectors are scaled Pythagorean tuples (rational length: "
-        "norm compared exactly, setter/orientation within 3u per component because of one division and one multiplication), exact "
-        "zeros, axis-aligned vectors and scalars sitting exactly on / one ulp beside the 1e-8 threshold, magnitudes 2^-40..2^498; "
-        "norm specs: number, per-cell array of shape n and (*n,1), broadcastable shapes, nested lists, polynomial callable of "
-        "position, zero / negative targets in places, None; valid: None/True/False/mask/'norm'. (generic) arbitrary binary64 vectors "
-        "1e-6..1e150 sent as the exact rationals they are, model within 8u. (malformed) wrong shapes / lengths / nvdim=0: ok/err "
-        "must agree. Oracle on the real code alone, per cell in exact arithmetic on the outputs: non-zero -> squared length t^2 "
-        "within 16u, all 2x2 cross terms vanish within 16u, positive dot product for t>0; zero stays exactly zero; t=0 gives exactly "
-        "zero; norm: one component, same mesh/unit/validity, x>=0, x^2 = sum v^2 within 8u, |v| exactly for scalars; orientation: "
-        "|o|^2 = 1 within 16u above the threshold, exactly zero below, o*norm = v within 8u; constructor = values then norm then "
-        "validity (valid='norm' reflects the final lengths); update_field_values == array of a fresh Field with that value. "
-        "non-trivial = some non-zero cell and a norm actually set")
+        "step as a model call on the implementation's own pre-state). Cell vectors are scaled Pythagorean tuples (rational length, so "
+        "the model side is exact), exact zeros, axis-aligned vectors and scalars sitting exactly on / one ulp beside the 1e-8 "
+        "threshold, magnitudes 2^-40..2^498; comparator: arrays that did not go through the setter and norms of single-component "
+        "cells exactly, setter results within 16u, norms 4u, orientation 8u per component (relative, so zeros are exact). Norm specs: "
+        "number (float/int/np.float64), per-cell array of shape n and (*n,1), other broadcastable shapes, nested lists, non-negative "
+        "polynomial callable of position vanishing on a plane of cells, zero targets in places, None; valid: None/True/False/mask/'norm'. "
+        "(generic) arbitrary binary64 vectors 1e-6..1e150 sent as the exact rationals they are, same comparator. (malformed) wrong "
+        "shapes / lengths / nvdim=0: ok/err must agree. Oracle on the real code alone, per cell in exact arithmetic on the outputs: "
+        "non-zero -> squared length t^2 within 16u, all 2x2 cross terms vanish within 16u, positive dot product for t>0; zero stays "
+        "exactly zero; t=0 gives exactly zero; norm: one component, same mesh/unit/validity, x>=0, x^2 = sum v^2 within 8u, |v| exactly "
+        "for scalars; orientation: |o|^2 = 1 within 16u above the threshold, exactly zero at or below it, o*norm = v within 8u; "
+        "constructor = values then norm then validity (valid='norm' reflects the final lengths); update_field_values == array of a "
+        "fresh Field with that value. non-trivial = some non-zero cell and a norm actually set")
 TRUSTED = ["harness/c15.py, harness/fieldio.py + driver JSON glue",
            "np.linalg.norm(axis=-1) is sqrt of the sum of squares; np.divide(where=, out=), np.isclose(x, 0) (|x| <= 1e-8) and NumPy broadcasting modelled by contract",
            "the driver instantiates the sqrt parameter with sqrtQ (proved exact on rational squares; floor at 2^-96 relative resolution elsewhere, used only under the 8u comparator)"]
 ASSUMPTIONS = ["theorems carry SqrtAt sqrt x (non-negative root) as an explicit hypothesis at the arguments used; instantiated by sqrtQ on rational squares and by Real.sqrt on all non-negative reals",
                "binary64 standard model without under/overflow: squared lengths stay within 2^-80 .. 2^1011",
                "a rejected norm assignment leaves the receiver normalised to unit length (the division has already been stored); the property does not speak about rejected norms, recorded as observation only"]
-UNPROVED = ["IEEE rounding of the one division and one multiplication per component (bounded by the 3u / 8u comparators, not by a theorem)"]
+UNPROVED = ["IEEE rounding of the division, multiplication and of np.linalg.norm (bounded by the 16u / 4u / 8u comparators, not by a theorem)"]
 BUDGET = {"quick": 100, "thorough": 900}
 
 U = Fraction(1, 2 ** 53)
@@ -47,14 +48,6 @@ PYTH = {
 
 
 # ------------------------------------------------------------------ small exact helpers
-def is_sq(x):
-    """Fraction x is the square of a rational"""
-    if x < 0:
-        return False
-    a, b = math.isqrt(x.numerator), math.isqrt(x.denominator)
-    return a * a == x.numerator and b * b == x.denominator
-
-
 def fr(s):
     return Fraction(s)
 
@@ -717,14 +710,6 @@ def cmp_data(name, a, b, dis, rel_of, skip=None):
             if fx != fy and abs(fx - fy) > rel * abs(fy):
                 dis.append(f"{name}: value at flat cell {k} comp {c}: impl {float(fx)!r} vs model {float(fy)!r} (allowed rel {float(rel):.1e})")
                 return
-
-
-def rep(q):
-    """q is a binary64 number"""
-    try:
-        return Fraction(float(q)) == q
-    except OverflowError:
-        return False
 
 
 def exact_len(v):
